@@ -68,7 +68,7 @@ func cborItem(b []byte, depth int) (Val, []byte, error) {
 	if len(b) == 0 {
 		return Val{}, nil, errTrunc
 	}
-	if depth > 200 {
+	if depth > 1<<21 {
 		return Val{}, nil, errors.New("reference reader: nesting too deep")
 	}
 	major := b[0] >> 5
@@ -238,7 +238,7 @@ func ubString(b []byte) (string, []byte, error) {
 
 // ubValue decodes the payload of a value whose marker m has been consumed.
 func ubValue(m byte, b []byte, depth int) (Val, []byte, error) {
-	if depth > 200 {
+	if depth > 1<<21 {
 		return Val{}, nil, errors.New("reference reader: nesting too deep")
 	}
 	switch m {
